@@ -165,7 +165,7 @@ theorem accumulate_mono (ds : List ℚ) (d : ℚ) (h : ∀ x ∈ ds, 0 ≤ x ∧
   nlinarith [sq_nonneg d]
 
 example : accumulate [1/2, 1/3] = 1/3 ∧ accumulate [1/3, 1/2] = 1/3 ∧ accumulate [] = 0 ∧ accumulate [1, 1/2] = 1 := by
-  decide +kernel
+  refine ⟨?_, ?_, ?_, ?_⟩ <;> simp [accumulate, accumulateFrom] <;> norm_num
 
 /-! ## why that number is the true error of the sweep -/
 
